@@ -10,6 +10,11 @@ def check(ctx):
         "The C13 rules R1-R3 applied to the five adapter methods of fastrace-futures (config E) with the finishing "
         "table poll_next: Ready(None) only; poll_close: Ready(_); poll_ready/start_send/poll_flush: never; R4 drop order of the adapter's fields; R5 Span::set_local_parent opens a "
         "scope on every path (C13-R5); R6 a scope records iff any item of its token is sampled (C13-R7).")
+    ctx.explanation += (" R8 the delivery bundle: queues drained to their end with the registry filtered in place, closed = closed and empty, "
+                        "stale sets kept unless cancelable, shared sets fanned out to every parent, one sampling filter at the choke point, a scope "
+                        "records iff any parent is sampled, setting a local parent opens a scope, no-op only without a recording parent.")
+    ctx.explanation += (" R9 the scope bundle (C10's rules): scopes opened on every path and refused only when the stack is full, released "
+                        "scopes popped with nothing left behind, the stack looked at from its top only and the only per-thread context.")
     ctx.not_decided = "polling from other threads, restoration of context (C10), delivery (C01/C03)."
     facts = ctx.facts("E")
     found = 0
@@ -32,3 +37,9 @@ def check(ctx):
     c = collector.Collector(ctx, facts)
     if c.need("R7"):
         collector.rule_stale_kept(ctx, c, "R7")        # C13-R9: what the last call records is delivered also under a parent released earlier
+    # what delivery as such needs (see props/common.py)
+    from .common import delivery_bundle
+    delivery_bundle(ctx, ctx.facts("E"), "R8")
+    # what "the local parent in effect" needs from the scope stack (see props/common.py)
+    from .common import scope_bundle
+    scope_bundle(ctx, ctx.facts("E"), "R9")
